@@ -295,6 +295,8 @@ func compile(p *seccomp.Policy) ([]byte, error) {
 	return b.Bytes(), nil
 }
 
+var emitDir string
+
 func policies(cps []concPolicy, r *result) {
 	bad := func(f string, a ...interface{}) {
 		if len(r.Violations) < 25 {
@@ -342,6 +344,10 @@ func policies(cps []concPolicy, r *result) {
 			}
 		}
 		check("documented YAML", render(cp, i), nil)
+		if emitDir != "" {
+			os.WriteFile(fmt.Sprintf("%s/pol_%d.yml", emitDir, i), render(cp, i), 0o644)
+			os.WriteFile(fmt.Sprintf("%s/pol_%d.want", emitDir, i), want, 0o644)
+		}
 		y, yerr := yaml.Marshal(Config{literal(cp)})
 		check("yaml.Marshal", y, yerr)
 		j, jerr := json.Marshal(Config{literal(cp)})
@@ -420,6 +426,7 @@ func closure(items []closureItem, r *result) {
 
 func main() {
 	mode := flag.String("mode", "tags", "tags | parse | policies | closure")
+	flag.StringVar(&emitDir, "emit", "", "policies: also write pol_<i>.yml (documented YAML) and pol_<i>.want (the in-memory policy's program) to this directory")
 	flag.Parse()
 	r := result{Violations: []string{}}
 	switch *mode {
